@@ -139,6 +139,18 @@ theorem ordFromStr_ok (n : Nat) (dt : DType) (s : Str) (x : List Int)
   all_goals try (cases h; done)
   all_goals (cases h; assumption)
 
+/-! ## (4) packings: the text layer -/
+
+/-- **packing text layer** — `PackingSpace.to_str` is the `;`-joined decimal values of the array and
+`from_str` starts with `np.fromstring(text, dtype, sep=";")`: for every non-empty list of values that fit the
+storage type, the values read back are the values written (then `reshape`, `n_bins := max bin` and
+`validate` follow — the validator and the complete `from_str(to_str(y)) = y` are C04's
+`PackVal.fromStr_toStr`; here that clause is covered by correspondence on decoded packings). -/
+theorem packing_text_roundtrip (dt : DType) (vals : List Int) (hne : vals ≠ [])
+    (hfit : ∀ v ∈ vals, dt.lo ≤ v ∧ v ≤ dt.hi) :
+    fromstring dt (joinSep ';' (vals.map showInt)) = some vals :=
+  fromstring_join dt vals hne hfit
+
 /-! ## (5) CSV tables of `PackingResult` -/
 end Text
 
